@@ -125,6 +125,10 @@ class Action(BaseForm):
 
     def __init__(self, left, right):
         """Initialise."""
+        if hasattr(self, "_left"):
+            # __new__ handed back an existing Action (action of an identity
+            # argument): it is already initialised, leave it as it is
+            return
         BaseForm.__init__(self)
 
         self._left = left
@@ -266,5 +270,7 @@ def _get_action_form_arguments(left, right):
 
     if isinstance(left, BaseForm):
         coefficients += left.coefficients()
+    elif isinstance(left, Coefficient):
+        coefficients += (left,)
 
     return arguments, coefficients
